@@ -126,6 +126,8 @@ def derive_v2(spec, rng, active):
                 if x.kind == 'seq' and x.ext and rng.random() < .8:
                     if 'oer-unknown-additions-not-skipped' in active and not x.additions:
                         continue        # the V1 decoder of an EMPTY extension does not skip (open finding)
+                    if 'oer-additions-multiple-of-8' in active and x.additions and len(x.additions) % 8 == 0:
+                        continue
                     used = set(mm.name for mm in x.members + x.additions)
                     for k in range(rng.choice([1, 1, 2, 3, 9])):
                         name = 'v2x%d' % k
